@@ -10,7 +10,7 @@ RULE = ("Stack trees (depth <= 4, width <= 3) built with the public constructors
         "with every combination of obj / varname / start_line (absent, valid, beyond the file) / description present or "
         "absent, is_async, is_exiting, hide; inner stacks; children mixing child contexts, stub child stacks and populated "
         "child stacks with/without root; leaf; error (single exception or group, constructed or really raised through nested calls, multi-line message, raised group with a raised member, chained with __cause__); frame hide / hide_line / lineno 0; all names "
-        "and texts ASCII tokens made unique per element. Each tree is formatted in all 8 option combinations on CPython "
+        "and texts ASCII tokens made unique per element (a quarter of the trees with multi-line descriptions and multi-line reprs of root / leaf). Each tree is formatted in all 8 option combinations on CPython "
         "3.9-3.12. Oracle: (1) every element of format() ends with exactly one newline, str(x) is their concatenation (also for "
         "Frame and Context); (2) round trip: a recursive-descent reader of the box-drawing prefixes rebuilds the tree (frames "
         "with function/line, contexts with their unique variable token, inner stacks with leaf/error, child entries with token "
@@ -39,6 +39,8 @@ def check_tree(ws, interps, tree, out):
         if v:
             viols.append({"desc": "%s on %s" % (v, interp), "interp": interp})
     cl = T.tree_classes(tree)
+    if tree.get("ml_text"):
+        cl.add("multi_line_reprs_and_descriptions")
     nontrivial = bool(cl & {"context_with_inner_and_children", "child_stack_populated", "hidden_frame", "hidden_context",
                             "hidden_frame_inside_context"})
     out.note_case(tree, nontrivial, classes=sorted(cl), n_eval=8 * len(interps))
@@ -80,7 +82,12 @@ def shard(arg):
     out = Outcome()
     interps = arg["interps"]
     with WorkerSet(interps, hooks=False) as ws:
-        fail = hyp_search(T.trees(), lambda t: check_tree(ws, interps, t, out), seed=arg["seed"], max_examples=arg["n"],
+        from hypothesis import strategies as st
+        # a quarter of the trees carry multi-line free text: descriptions with a line break, roots and leaves whose repr
+        # spans several lines
+        strat = st.tuples(T.trees(), st.sampled_from([False, False, False, True])).map(
+            lambda p: dict(p[0], ml_text=True) if p[1] else p[0])
+        fail = hyp_search(strat, lambda t: check_tree(ws, interps, t, out), seed=arg["seed"], max_examples=arg["n"],
                           shrink=arg["shrink"])
         if fail:
             v = fail["violations"][0]
